@@ -8,12 +8,13 @@ import (
 	"github.com/open2b/scriggo"
 	"github.com/open2b/scriggo/builtin"
 
+	"verifharness/internal/hx"
 	"verifharness/internal/proto"
 )
 
 // C24: scriggo.HTMLEscape / builtin.HtmlEscape vs. the Lean model (Model/HTMLEscape.lean),
 // with the property's own oracle (five replacements, entity decoding gives s back).
-func init() { runners["C24"] = runC24 }
+func main() { hx.Main("C24", runC24) }
 
 var c24ref = strings.NewReplacer(`"`, "&#34;", `'`, "&#39;", "&", "&amp;", "<", "&lt;", ">", "&gt;")
 
@@ -45,7 +46,7 @@ func c24oracle(s string) (clause string, got string) {
 	return "", out
 }
 
-func runC24(c *Ctx) error {
+func runC24(c *hx.Ctx) error {
 	res := c.Res
 	res.Rule = "all strings over {< > & \" ' a 0xC3} up to length L (L=6 quick, 8 thorough) plus random strings of length ≤ 300 biased to the five bytes; a case is non-trivial when it contains at least one of the five bytes; distinct by input"
 	alpha := []byte{'<', '>', '&', '"', '\'', 'a', 0xC3}
@@ -105,7 +106,7 @@ func runC24(c *Ctx) error {
 				implLine = "err panic"
 			}
 			if clause != "" {
-				min := shrinkBytes([]byte(s), func(b []byte) bool { cl, _ := c24oracle(string(b)); return cl == clause })
+				min := hx.ShrinkBytes([]byte(s), func(b []byte) bool { cl, _ := c24oracle(string(b)); return cl == clause })
 				_, g := c24oracle(string(min))
 				res.AddBreak(proto.Break{Kind: "property", Name: clause, Case: "C24 htmlescape " + proto.Hex(min),
 					Human: fmt.Sprintf("HTMLEscape(%q)", min), Impl: g, Model: c24ref.Replace(string(min))})
